@@ -380,4 +380,5 @@ SPEC_FUNS.update({
     "sem": (["V", "V"], "B", "sem"), "build": (["V", "V"], "V", "build"),
     "all_present": (["V", "V"], "B", "all_present"), "rbd": (["V"], "V", "rbd"),
     "props_accepts": (["V", "S"], "B", "props_accepts"),
+    "outcome_of": (["V", "V"], "V", "outcome_of"),
 })
